@@ -213,7 +213,7 @@ func modeC06() {
 			if strings.HasPrefix(t.Kind, "sidecar-") {
 				bound = 0
 			}
-			if t.Kind == "damage-chunk" && os.Getenv("VERIF_C06_D2") != "" && c.Streams == 1 && c.LatencyMs == 0 {
+			if t.Kind == "damage-chunk" && (thorough || os.Getenv("VERIF_C06_D2") != "") && c.Streams == 1 && c.LatencyMs == 0 {
 				bound = 2 // a slow verification hash on the sender needs "demote" plus a later pick
 			}
 			cfg := baseCfg()
